@@ -137,8 +137,11 @@ func (s Server) RollbackTransaction(ctx context.Context, req *admin.RollbackRequ
 		return nil, errors.Status(err).Err()
 	}
 	for transactionEvent := range eventCh {
+		// an asynchronous caller waits for the commit: a transaction that is already APPLIED when its state is
+		// first seen (replay) has been committed too
 		if (transactionEvent.Transaction.TransactionStrategy.Synchronicity == configapi.TransactionStrategy_ASYNCHRONOUS &&
-			transactionEvent.Transaction.Status.State == configapi.TransactionStatus_COMMITTED) ||
+			(transactionEvent.Transaction.Status.State == configapi.TransactionStatus_COMMITTED ||
+				transactionEvent.Transaction.Status.State == configapi.TransactionStatus_APPLIED)) ||
 			(transactionEvent.Transaction.TransactionStrategy.Synchronicity == configapi.TransactionStrategy_SYNCHRONOUS &&
 				transactionEvent.Transaction.Status.State == configapi.TransactionStatus_APPLIED) {
 			response := &admin.RollbackResponse{ID: t.ID, Index: t.Index}
